@@ -702,7 +702,7 @@ fn live_models(thorough: bool) -> Vec<LiveModel> {
         vec![Reason::TcpClose],
         true,
     ));
-    if thorough {
+    {
         v.push(mk(
             "c10-gr-nbit-2fam",
             vec![v4, v6],
@@ -733,18 +733,8 @@ fn live_models(thorough: bool) -> Vec<LiveModel> {
             vec![Reason::TcpClose, Reason::NotifCease],
             false,
         ));
-    } else {
-        v.push(mk(
-            "c10-gr-llgr-q",
-            vec![v4],
-            true,
-            vec![v4],
-            vec![EstCaps { gr: vec![v4], nbit: true, llgr: vec![v4] }, EstCaps { gr: vec![], nbit: false, llgr: vec![v4] }],
-            vec![v4],
-            vec![Reason::TcpClose, Reason::NotifHardReset, Reason::LocalUpdateError],
-            false,
-        ));
     }
+    let _ = thorough;
     v
 }
 
@@ -1001,7 +991,7 @@ pub(crate) fn run(replay: Option<&str>) -> Report {
         rep.caps_hit.push("c10-pure: no fixpoint within depth 30".into());
         rep.exhaustive = false;
     }
-    let depth = if thorough { 30 } else { 7 };
+    let depth = if thorough { 30 } else { 8 };
     for m in live_models(thorough) {
         // the add-path scenario (partial re-announcement before End-of-RIB) needs 7 steps
         let d = if m.addpath { depth.max(7) } else { depth };
